@@ -15,11 +15,15 @@ run_one() {
   rm -rf "$c"
 }
 export -f run_one; export WORK VERIF
-ls -d "$VERIF"/seeded/*/ | grep -v _confirm | xargs -P 4 -I{} bash -c 'run_one {}'
-python3 - "$WORK" "$VERIF" <<'PY'
+# optional argument: a grep pattern selecting seed directories; their rows are merged into the existing MATRIX.json
+PAT=${1:-.}
+ls -d "$VERIF"/seeded/*/ | grep -v _confirm | grep -E "$PAT" | xargs -P 6 -I{} bash -c 'run_one {}'
+python3 - "$WORK" "$VERIF" "$PAT" <<'PY'
 import sys,os,re,json,glob
 work,verif=sys.argv[1],sys.argv[2]
 m={}
+if len(sys.argv)>3 and sys.argv[3]!='.':
+    m=json.load(open(verif+'/seeded/MATRIX.json'))
 for f in sorted(glob.glob(work+'/*.out')):
     sid=os.path.basename(f)[:-4]
     m[sid]={}
